@@ -1,4 +1,5 @@
 import AasVerif.Lemmas.LexBlock
+import AasVerif.Lemmas.LexLine
 import AasVerif.Gen.Descr
 /-!
 # C20 — Generated source files are syntactically well-formed (wrapper level)
@@ -55,5 +56,87 @@ theorem java_comment_needs_backslash_u_escape :
     (lexJava (blockCommentText [([42, 47], [42, 38, 35, 52, 55, 59])] javaOpen javaPre javaSuf javaEmpty javaClose
       [92, 117, 48, 48, 50, 97, 47])).map List.length = some 5 := by
   decide
+
+end AasVerif.Props.C20
+
+namespace AasVerif.Props.C20
+open AasVerif AasVerif.Descr AasVerif.Lex AasVerif.Gen.Descr
+
+/-! ## Line comments (Go `//`, C# `///`) -/
+
+/-- *Table*: `str.splitlines` splits at least wherever a target language ends a line
+(Java, JavaScript/TypeScript, C++, Go, C#; Python: LF and CR). -/
+theorem splitlines_covers_line_terminators :
+    ∀ cfg ∈ [java, js, cpp, go, cs, ⟨[10, 13], false, []⟩], ∀ x ∈ cfg.nls, PyStr.isBreak x = true := by
+  decide
+
+/-- Go: when the wrapper returns `out`, then `out` followed by the next line lexes as one `//`
+comment per line of the text, and the next line is not affected. -/
+theorem go_line_comments_only (t out rest : Text) (hne : splitLines t ≠ [])
+    (h : lineComment goEmpty goPre id t = .ok out) :
+    lexC go .code (out ++ 10 :: rest)
+      = ((splitLines t).flatMap fun l => [.comment (if PyStr.hasNonSpace l then 32 :: l else []), .nl])
+        ++ lexC go .code rest := by
+  have hout := stripped_ok h
+  subst hout
+  have hsub : ∀ x ∈ go.nls, PyStr.isBreak x = true := splitlines_covers_line_terminators go (by simp)
+  have := lexC_joined go (by decide) hsub (fun l => if PyStr.hasNonSpace l then 32 :: l else [])
+    (by
+      intro l hl
+      refine ⟨?_, by simp [continues, go]⟩
+      intro x hx
+      split at hx
+      · rcases List.mem_cons.mp hx with rfl | hx
+        · decide
+        · exact not_nl_of_not_break go hsub x (hl x hx)
+      · cases hx) t rest hne
+  rw [← this]
+  congr 2
+  unfold lineCommentText
+  congr 1
+  apply List.map_congr_left
+  intro l _
+  split <;> rfl
+
+/-- C#: the `///` wrapping never violates the `@require` of `_slash_slash_slash_line`. -/
+theorem cs_comment_no_newline_crash (t : Text) :
+    csComment csEmpty csPre t
+      = stripped (joinNl ((splitLines t).map fun l => if l.length = 0 then csEmpty else csPre ++ l)) := by
+  unfold csComment
+  rw [sssAll_lines]
+  intro l hl x hx hx10
+  have := splitLines_no_break t l hl x hx
+  rw [hx10] at this
+  exact absurd this (by decide)
+
+/-- C#: when the wrapping returns `out`, every line of it is one `///` comment token (line ends of
+C#: CR, LF, U+0085, U+2028, U+2029) and the next line is not affected. -/
+theorem cs_line_comments_only (t out rest : Text) (hne : splitLines t ≠ [])
+    (h : csComment csEmpty csPre t = .ok out) :
+    lexC cs .code (out ++ 10 :: rest)
+      = ((splitLines t).flatMap fun l => [.comment (if l.length = 0 then [47] else 47 :: 32 :: l), .nl])
+        ++ lexC cs .code rest := by
+  rw [cs_comment_no_newline_crash] at h
+  have hout := stripped_ok h
+  subst hout
+  have hsub : ∀ x ∈ cs.nls, PyStr.isBreak x = true := splitlines_covers_line_terminators cs (by simp)
+  have := lexC_joined cs (by decide) hsub (fun l => if l.length = 0 then [47] else 47 :: 32 :: l)
+    (by
+      intro l hl
+      refine ⟨?_, by simp [continues, cs]⟩
+      intro x hx
+      split at hx
+      · simp only [List.mem_singleton] at hx; subst hx; decide
+      · rcases List.mem_cons.mp hx with rfl | hx
+        · decide
+        · rcases List.mem_cons.mp hx with rfl | hx
+          · decide
+          · exact not_nl_of_not_break cs hsub x (hl x hx)) t rest hne
+  rw [← this]
+  congr 2
+  congr 1
+  apply List.map_congr_left
+  intro l _
+  split <;> rfl
 
 end AasVerif.Props.C20
